@@ -305,4 +305,63 @@ def reprojerr (tiny : α) (K : Mat3 α) (ext : Option (SE3 α)) (red : Reduction
   | .sum => [sumL (e.map sabs)]
   | .norm => [Scalar.sqrt (sumL (e.map fun x => x * x))]
 
+
+/-! ## the public entry points: argument defaulting, documented checks, dtype-dependent constants
+
+`none` models a failed documented check (`assert`) or a kernel that raises; the cores above are what is left once the
+arguments have been resolved.  These wrappers are what the driver ops `c18.api.*` run against the real calls. -/
+
+inductive Dtype | f32 | f64
+deriving DecidableEq, Repr, Inhabited
+
+/-- `torch.finfo(dtype).tiny`: `2⁻¹²⁶` / `2⁻¹⁰²²` -/
+def finfoTiny : Dtype → α
+  | .f32 => q 1 (2 ^ 126)
+  | .f64 => q 1 (2 ^ 1022)
+
+/-- `pdim = points.size(-1) if pdim == None else pdim; assert points.size(-1) >= pdim` -/
+def resolvePdim (pdim : Option Nat) (pts : List (Pt α)) : Option Nat :=
+  match pdim with
+  | none => some (width pts)
+  | some p => if width pts < p then none else some p
+
+/-- `nbr_filter(points, nbr, radius, pdim=None, ord=2, return_mask=False)`: filtered cloud and, if asked for, the mask -/
+def nbrFilterApi (pts : List (Pt α)) (n : Int) (radius : α) (pdim : Option Nat) (o : Norm) (returnMask : Bool) :
+    Option (List (Pt α) × Option (List Bool)) :=
+  (resolvePdim pdim pts).map fun pd =>
+    (nbrFilter o pd radius n pts, if returnMask then some (nbrMask o pd radius n pts) else none)
+
+/-- `knn_filter(points, k, pdim=None, radius=None, ord=2)` -/
+def knnFilterApi (topk : Bool → List α → Nat → List Nat) (pts : List (Pt α)) (kk : Nat) (pdim : Option Nat)
+    (radius : Option α) (o : Norm) : Option (List (Pt α)) :=
+  (resolvePdim pdim pts).bind fun pd => knnFilter topk o pd kk radius pts
+
+/-- is this scalar zero? (`item != 0`) -/
+def isZero (x : α) : Bool := Scalar.le x (k 0) && Scalar.le (k 0) x
+
+/-- `voxel_filter(points, voxel, random=False)`: `assert D >= vdim`, `assert all(item != 0)`, `torch.min` of an empty
+cloud raises; then the centroid or the member branch -/
+def voxelFilterApi (tr : α → Int) (uniq : List (List Int) → List (List Int)) (argsort : List Nat → List Nat)
+    (rnd : List Nat) (pts : List (Pt α)) (vox : List α) (random : Bool) : Option (List (Pt α)) :=
+  if width pts < vox.length then none
+  else if vox.any isZero then none
+  else if pts.isEmpty then none
+  else some (if random then voxelRandom tr uniq argsort rnd vox pts else voxelFilter tr uniq vox pts)
+
+/-- `homo2cart` with the dtype's own `tiny` -/
+def homo2cartApi (dt : Dtype) (p : List α) : List α := homo2cart (finfoTiny dt) p
+
+/-- `point2pixel(points, intrinsics, extrinsics=None)` with the dtype's own `tiny` -/
+def point2pixelApi (dt : Dtype) (K : Mat3 α) (ext : Option (SE3 α)) (p : Vec3 α) : List α :=
+  point2pixel (finfoTiny dt) K ext p
+
+/-- `reprojerr(points, pixels, intrinsics, extrinsics=None, reduction='none')`; `none` = failed `assert reduction in …` -/
+def reprojerrApi (dt : Dtype) (K : Mat3 α) (ext : Option (SE3 α)) (reduction : String) (p : Vec3 α) (px : List α) :
+    Option (List α) :=
+  match reduction with
+  | "none" => some (reprojerr (finfoTiny dt) K ext .none p px)
+  | "sum" => some (reprojerr (finfoTiny dt) K ext .sum p px)
+  | "norm" => some (reprojerr (finfoTiny dt) K ext .norm p px)
+  | _ => none
+
 end PP.Cloud
